@@ -1,7 +1,7 @@
 (* C13 - distance, magnitude difference, circle inversion: structural part.  Pinned theorems only. *)
 From Coq Require Import ZArith List Bool Reals Lra.
 From Flocq Require Import Core BinarySingleNaN.
-Require Import GV.FloatBase GV.FloatLemmas GV.AngleM GV.AngleProofs GV.GeonumM GV.GeonumProofs GV.TraitsM.
+Require Import GV.FloatBase GV.FloatLemmas GV.AngleM GV.AngleProofs GV.GeonumM GV.GeonumProofs GV.TraitsM GV.NewProofs GV.CtorProofs GV.PiBounds GV.TrigProofs GV.DotValue GV.DistValue.
 Open Scope R_scope.
 
 (* for EVERY libm and every input: distance_to is at angle exactly 0 and its magnitude is never NaN or negative *)
@@ -19,3 +19,32 @@ Theorem C13_invert_panic : forall (L : libm) g c r,
   invert_circle L g c r = None <-> feq (mag (gsub_vv L g c)) zero = true.
 Proof. exact invert_circle_spec. Qed.
 Print Assumptions C13_invert_panic.
+
+(* S2, REAL pi and cos: for any libm with |cosF - cos| <= u on [-8,8] the radicand computed by distance_to is the
+   law-of-cosines value D = |a|^2 + |b|^2 - 2|a||b|cos(dir b - dir a) (= squared Euclidean distance, >= 0)
+   within (|a|^2+|b|^2)(u + 1.0003e-10) + 10*2^-1075 *)
+Theorem C13_radicand_value : forall (L : libm) (u : R) a b, cos_acc L u -> u <= / 1000 ->
+  canonp (rem (ang a)) -> canonp (rem (ang b)) -> (0 <= blade (ang a))%Z -> (0 <= blade (ang b))%Z ->
+  fin (dist_sq L a b) ->
+  let S := R_ (mag a) * R_ (mag a) + R_ (mag b) * R_ (mag b) in
+  let D := S - 2 * R_ (mag a) * R_ (mag b) * cos (dir (ang b) - dir (ang a)) in
+  0 <= D /\ Rabs (R_ (dist_sq L a b) - D) <= S * (u + 10003 / 100000000000000) + 10 * bpow radix2 (-1075).
+Proof. exact dist_sq_value. Qed.
+Print Assumptions C13_radicand_value.
+
+(* and the distance is sqrt(D) up to the square root of that radicand error (the conditioning of the
+   law of cosines near coincident points) plus one rounding *)
+Theorem C13_distance_value : forall (L : libm) (u : R) a b, cos_acc L u -> u <= / 1000 ->
+  canonp (rem (ang a)) -> canonp (rem (ang b)) -> (0 <= blade (ang a))%Z -> (0 <= blade (ang b))%Z ->
+  fin (dist_sq L a b) ->
+  let S := R_ (mag a) * R_ (mag a) + R_ (mag b) * R_ (mag b) in
+  let D := S - 2 * R_ (mag a) * R_ (mag b) * cos (dir (ang b) - dir (ang a)) in
+  let Bnd := S * (u + 10003 / 100000000000000) + 10 * bpow radix2 (-1075) in
+  Rabs (R_ (mag (distance_to L a b)) - sqrt D)
+    <= sqrt Bnd * (1 + / 9007199254740992) + / 9007199254740992 * sqrt D + bpow radix2 (-1075).
+Proof. exact distance_value. Qed.
+Print Assumptions C13_distance_value.
+
+Theorem C13_radicand_def : forall (L : libm) a b, mag (distance_to L a b) = fabs (fsqrt (fmax (dist_sq L a b) zero)).
+Proof. exact distance_unfold. Qed.
+Print Assumptions C13_radicand_def.
